@@ -98,6 +98,8 @@ def make_runner(c, f, mutate, sink, fixed=None, case=None):
             else:
                 env[name] = b.symbolic(ip, name)
         values = dict(env)
+        for real, alias in getattr(c, 'param_alias', {}).items():
+            values[alias] = env[real]
         if c.requires is not None:
             for cl in clauses(eval_cfn(ip, c.requires, values)):
                 st.assume(ip.zbool(cl))
@@ -140,25 +142,36 @@ def make_runner(c, f, mutate, sink, fixed=None, case=None):
                 else:
                     for (e, w, iff) in matched:
                         if w is not None:
-                            st.oblige('raises', "%s allowed" % e.__name__, ip.zbool(eval_cfn(ip, w, values, old_heap)))
+                            st.oblige('raises', "%s allowed" % e.__name__, ip.zbool(eval_pre(ip, w, values, old_heap)))
                 sink.append(('raise', ex.cls.__name__))
                 return
             values['result'] = result
             for (e, w, iff) in c.raises:
                 if iff and w is not None:
-                    st.oblige('raises-iff', "%s required" % e.__name__, simp(z3.Not(ip.zbool(eval_cfn(ip, w, values, old_heap)))))
+                    st.oblige('raises-iff', "%s required" % e.__name__, simp(z3.Not(ip.zbool(eval_pre(ip, w, values, old_heap)))))
             ctx['result'] = result
             for name, ens in c.ensures:
                 pv = eval_cfn(ip, ens, values, old_heap)
                 for i, cl in enumerate(clauses(pv)):
                     st.oblige('ensures', "%s.%d" % (name, i), ip.zbool(cl))
-            frame_obligations(ip, c, env, old_heap)
+            frame_obligations(ip, c, values, old_heap)
             sink.append(('ret', None))
         finally:
             tag()
             st.x.contracts_used = getattr(st.x, 'contracts_used', set()) | st.ghost.get('contracts_used', set())
             st.x.lemmas_used = getattr(st.x, 'lemmas_used', set()) | st.ghost.get('lemmas_used', set())
     return run
+
+
+def eval_pre(ip, fn, values, old_heap):
+    """evaluate a contract function in the pre-state of the call (raises-conditions speak about the inputs)"""
+    st = ip.st
+    cur = st.heap
+    st.heap = {k: dict(c) for k, c in old_heap.items()}
+    try:
+        return eval_cfn(ip, fn, values, old_heap)
+    finally:
+        st.heap = cur
 
 
 def _plain_fn(f):
@@ -544,6 +557,8 @@ def native_check(c, f, nargs, want_kind=None):
     """run the real function natively on nargs (dict name->native) and evaluate the contract natively.
     returns dict(observation=..., violated=[clause names])"""
     values = {k: (c.sig[k].native_copy(v) if k in c.sig else v) for k, v in nargs.items()}
+    for real, alias in getattr(c, 'param_alias', {}).items():
+        values[alias] = values[real]
     obs = {}
     violated = []
     try:
@@ -561,8 +576,12 @@ def native_check(c, f, nargs, want_kind=None):
     whens = []
     for (exc, w, iff) in c.raises:
         if w is not None:
-            pre, post, _ = native_clause(w)
-            whens.append((exc, post, pre(values), iff))
+            pre, post, names_ = native_clause(w)
+            try:
+                wv = bool(post({k: x for k, x in values.items()}, pre(values)))
+            except Exception as ex_:
+                wv = None
+            whens.append((exc, wv, None, iff))
         else:
             whens.append((exc, None, None, iff))
     node, _ = function_ast(f)
@@ -576,22 +595,14 @@ def native_check(c, f, nargs, want_kind=None):
         if not matched:
             violated.append('raises:unlisted %s' % type(ex).__name__)
         for (e, w, o, iff) in matched:
-            if w is not None:
-                try:
-                    if not w(dict(values, exc=ex), o):
-                        violated.append('raises:%s allowed' % e.__name__)
-                except Exception as ex2:
-                    obs['clause_error'] = repr(ex2)
+            if w is False and not any(w2 is not False for (e2, w2, o2, i2) in matched if e2 is not e):
+                violated.append('raises:%s allowed' % e.__name__)
         return {'observation': obs, 'violated': violated, 'pre': True}
     obs['returned'] = repr(_norm_native(result))[:400]
     values['result'] = result
     for (e, w, o, iff) in whens:
-        if iff and w is not None:
-            try:
-                if w(values, o):
-                    violated.append('raises-iff:%s required' % e.__name__)
-            except Exception as ex2:
-                obs['clause_error'] = repr(ex2)
+        if iff and w is True:
+            violated.append('raises-iff:%s required' % e.__name__)
     for name, post, olds in ens:
         try:
             r = post(values, olds)
